@@ -95,12 +95,35 @@ def run(ctx, repo, tier):
     hh = repo.cls(PR.PO, "Cube4DPolytope").methods.get("get_half_of_hypercube")
     if hh is None:
         raise AnalysisError("anchor vanished: Cube4DPolytope.get_half_of_hypercube")
-    guards = [n for n in ast.walk(hh.node) if isinstance(n, ast.If) and any(isinstance(b, ast.Raise) for b in n.body) and
-              isinstance(n.test, ast.Compare) and len(n.test.ops) == 1]
+    def raise_guards(fnode, rename):
+        out = []
+        for n in ast.walk(fnode):
+            if isinstance(n, ast.If) and any(isinstance(b, ast.Raise) for b in n.body) and isinstance(n.test, ast.Compare) and len(n.test.ops) == 1:
+                out.append((rename.get(src(n.test.left), src(n.test.left)), n.test.ops[0], rename.get(src(n.test.comparators[0]), src(n.test.comparators[0])), n))
+        return out
+    guards = raise_guards(hh.node, {})
+    # the check may live in a private helper of the class: parameters are mapped back to the caller's expressions
+    pcls = repo.cls(PR.PO, "Cube4DPolytope")
+    for c in ast.walk(hh.node):
+        if isinstance(c, ast.Call) and isinstance(c.func, ast.Attribute) and isinstance(c.func.value, ast.Name) and c.func.value.id in ("self", "cls") \
+                and c.func.attr.startswith("_"):
+            hm = pcls.find_method(c.func.attr)
+            if hm is None:
+                continue
+            ps = [a.arg for a in hm.node.args.posonlyargs + hm.node.args.args]
+            if "staticmethod" not in hm.decorators() and ps:
+                ps = ps[1:]
+            ren = {}
+            for k_, a_ in enumerate(c.args):
+                if k_ < len(ps):
+                    ren[ps[k_]] = src(a_)
+            for kw_ in c.keywords:
+                if kw_.arg:
+                    ren[kw_.arg] = src(kw_.value)
+            guards += raise_guards(hm.node, ren)
     ctx.instance("LEN")
     okg = None
-    for g in guards:
-        l, op, r = src(g.test.left), g.test.ops[0], src(g.test.comparators[0])
+    for l, op, r, g in guards:
         if l == "N" and isinstance(op, ast.Gt) or r == "N" and isinstance(op, ast.Lt):
             okg = True
         elif l == "N" and isinstance(op, (ast.GtE,)) or r == "N" and isinstance(op, ast.LtE):
@@ -110,11 +133,11 @@ def run(ctx, repo, tier):
                "than N silently)", hh.where)
     elif okg is False:
         ctx.violate("LEN", "C07.half.available", "a request for exactly as many rotations as are available is rejected (off by one)", hh.where,
-                    src(guards[0].test))
+                    src(guards[0][3].test))
     else:
         ctx.violate("LEN", "C07.half.available", "no availability check: a request for more rotations than the level offers returns fewer than N "
                     "rows without an error", hh.where, witness="no `if N > available: raise`") if not guards else \
-            ctx.inconclusive("LEN", "C07.half.available", "availability check not recognised", hh.where, witness=src(guards[0].test))
+            ctx.inconclusive("LEN", "C07.half.available", "availability check not recognised", hh.where, witness=src(guards[0][3].test))
     # ------------------------------------------------------------ 3. double cover [G; -G], exact negation
     voro.double_cover_layout(ctx, repo, "C07")
     um = repo.module(UT)
